@@ -55,11 +55,10 @@ Proof.
   destruct (has_match (s_subs s) (m_topic m)) eqn:HM.
   - split; [|split].
     + intros _ Full. rewrite Full in H4.
-      destruct (s_act s) as [c'|]; [destruct (c' =? c); [|rewrite andb_false_r in H4]|]; apply msgs_eqb_eq in H4; exact H4.
+      destruct (s_act s) as [c'|]; [rewrite andb_false_r in H4|]; apply msgs_eqb_eq in H4; exact H4.
     + intros Hno. apply has_match_false in Hno. congruence.
     + destruct (s_act s) as [c'|].
-      * destruct (c' =? c); [apply msgs_eqb_eq in H4; auto|].
-        destruct (mem_n c' (st_dying st) && is_full (st_cap st) (queue_of m s)); apply msgs_eqb_eq in H4; auto.
+      * destruct (mem_n c' (st_dying st) && is_full (st_cap st) (queue_of m s)); apply msgs_eqb_eq in H4; auto.
       * destruct (is_full (st_cap st) (queue_of m s)); apply msgs_eqb_eq in H4; auto.
   - apply msgs_eqb_eq in H4. split; [|split]; auto.
     intros Hex. apply has_match_true in Hex. congruence.
